@@ -18,6 +18,8 @@ CHECKS = {
    text="For each seeded history EVERY prefix is enumerated as a crash point: the real service is restarted from that snapshot, the largest installed proxy epoch (sampled distribution over epochs actually served) is injected, recover_epoch runs, and every view served afterwards must exceed it and satisfy the partition oracle.", note="fetch_max_epoch (TCP) is replaced by hook H7; E2 live part is listed in DESIGN §7 C13.", ref="§7 C13"),
  "C18": dict(engine=E1, cat="exploration", tech="deterministic simulation with clock control: seeded report/query/registration histories on a virtual clock; quorum-of-fresh-distinct-reporters model",
    text="Report/query/clock-jump/registration histories on the virtual wall clock (hook H3), 5 reporters, quorum 1..4, ttl 2/60 s with jumps at ttl-1/ttl/ttl+1; listed => registered and >= quorum distinct reporters with a report no older than ttl; re-registration clears.", note="One-directional oracle as the property is; boundary age == ttl accepted either way.", ref="§7 C18"),
+ "C11": dict(engine="E4 shuttle-sim", cat="exploration", tech="deterministic simulation of thread interleavings: shuttle-controlled threads on the real TaskBlockingQueue switching at hooks before every atomic access; seeded random + PCT schedules; replayable schedule",
+   text="Real BlockingMap/TaskBlockingQueue with stub inner and re-dispatch senders; 2-4 sender threads (all hints), 1-2 blockers, a backend thread; shuttle decides every interleaving at the granularity of individual atomic operations (H8 hooks). Oracle over the recorded history: no hand-over to the source inside (barrier observed, blocking lifted); exactly one terminal event per command; nothing stays queued; counter returns to zero.", note="Sequential consistency assumed (all accesses SeqCst; shuttle runs one thread at a time). Senders/backends are stubs; the queue, counters, CAS loop and crossbeam channel are real.", ref="§7 C11"),
 }
 NOT_APPLICABLE = {
  "C02": "not yet built in this tree: cluster-sim (E2) check under construction; see DESIGN §11.1",
